@@ -40,7 +40,7 @@ def all_patterns(F):
 
 
 def run(tier, seed):
-    ck = Check("C07", tier, seed, areas=["coupling"], gen_groups=[])
+    ck = Check("C07", tier, seed, areas=["coupling"], gen_groups=["Context"])
     ck.rule = ("every mask pattern over F features (F <= 4 quick / 6 thorough) with numeric values from {-2,-1,0} and "
                "{0.5,1,3}, x {additive, affine} couplings with an integer-valued recording conditioner (exact "
                "comparison with the extracted model, 2-D and 4-D, with/without context) and x the seven coupling "
@@ -179,12 +179,16 @@ def perturbation(ck, cp, tier, seed):
                     continue
                 mask = mask_values(pat)
                 for dims in (2, 4):
-                    for uncond in (False, True):
+                    for uncond in (False, True, "img_shape only"):
+                        # "img_shape only": the per-pixel parameter shape is passed although NO unconditional transform is requested
+                        if uncond == "img_shape only":
+                            if dims != 4 or not name.startswith("Piecewise"):
+                                continue
                         if uncond and not name.startswith("Piecewise"):
                             continue
                         if name.startswith("UMNN") and Fe > 3:
                             continue
-                        if tier == "quick" and uncond and (dims == 4 or Fe == maxF):
+                        if tier == "quick" and uncond is True and (dims == 4 or Fe == maxF):
                             continue
                         ctxd = 2 if (sum(pat) + Fe) % 2 else None
                         torch.manual_seed(seed + Fe)
@@ -193,12 +197,15 @@ def perturbation(ck, cp, tier, seed):
                         else:
                             mk = lambda i, o: nets.ConvResidualNet(i, o, hidden_channels=4, context_channels=ctxd, num_blocks=1)
                         extra = dict(kw)
-                        if uncond:
+                        if uncond is True:
                             extra["apply_unconditional_transform"] = True
                             if dims == 4:
                                 extra["img_shape"] = [2, 2]
+                        elif uncond:
+                            extra["img_shape"] = [2, 2]
+                            uncond = False
                         r = attempt(ctor, mask, mk, **extra)
-                        key = ("perturb", name, tuple(mask), dims, uncond)
+                        key = ("perturb", name, tuple(mask), dims, uncond, "img_shape" in extra)
                         ck.case(key)
                         ck.count(name)
                         if r[0] != "ok":
